@@ -260,6 +260,9 @@ func (m *Monitor) UDPRead(s *UDPSock, d *Dgram, n int) {
 		m.srvRecv(ustr(d.From), d.Payload, n == len(d.Payload) && n < m.InboundMTU, now)
 	case s.Role == "relay":
 		m.inbs = append(m.inbs, &mInb{RelayKey: s.Info.Addr, From: ustr(d.From), Payload: d.Payload, NRead: n, TRecv: now})
+		if len(m.M.ByRelay[ustr(d.From)]) > 0 {
+			m.K.Stats.Probe("hairpin_arrival") // the sender is a relayed address of this very server
+		}
 	}
 }
 
@@ -1189,6 +1192,9 @@ func (m *Monitor) forward(to string, isChan bool, num uint16, peer string, paylo
 			}
 			if m.permPoss(a, src.IP.String(), i.TRecv, now) || m.chanOfAddrPoss(a, i.From, i.TRecv, now) {
 				i.Done = true
+				if len(m.M.ByRelay[i.From]) > 0 {
+					m.K.Stats.Probe("hairpin_forwarded")
+				}
 				return
 			}
 			reason = "no-permission"
